@@ -1,4 +1,6 @@
 import OmbottModel.Model.Forms
+import OmbottModel.Model.BodyAccess
+import OmbottModel.Lemmas.FormsRoundtrip
 import OmbottModel.Gen.Forms
 /-!
 C07 — Multipart forms and uploads round-trip exactly.
@@ -8,6 +10,8 @@ namespace Ombott.Forms
 open Py Ombott.Multipart
 
 /-! ### tie to the source: the two regular expressions -/
+
+open Ombott.BodyAccess
 
 def cpStr (l : List Nat) : Str := l.map Char.ofNat
 
@@ -30,5 +34,109 @@ theorem boundary_table_tie :
     Gen.formsBoundaryTable.all (fun t => t.all fun r =>
       boundaryOf (cpStr r.1) == r.2.map cpStr) = true := by
   decide +kernel
+
+/-! ### the property -/
+
+/-- **Hypothesis shared with C06** (not an axiom): the markup that `MultipartMarkup.parse` builds
+from these chunks for the encoded body is exactly the encoder's sections, and no error is recorded.
+This is C06's `section_ranges_exact` (one piece) together with `markup_split_independent` (any
+other chunking) for well-formed bodies, i.e. whenever no value contains the delimiter
+(`Spec.WFBody`); `Props/C06.lean` discharges it. -/
+def MarkupExact (b : Bytes) (parts : List Spec.Part) (chunks : List Bytes) : Prop :=
+  ∀ s0, St.init b = .ok s0 →
+    (feed s0 chunks).markups = Spec.expectedMarkups b parts ∧ (feed s0 chunks).error = none
+
+theorem lowerCT_multipart (boundary : Str) (quote : Bool) (cl : Int) (fr : Except FrErr (List Bytes)) :
+    startsWithS (lowerCT ⟨some (contentTypeFor boundary quote), cl, fr⟩) cs!"multipart/" = true := by
+  unfold lowerCT contentTypeFor lower startsWithS
+  simp only [Option.getD_some, List.map_append]
+  have : List.map lowerChar cs!"multipart/form-data; boundary=" = cs!"multipart/form-data; boundary=" := by decide
+  rw [this]
+  rfl
+
+theorem iterItems_encoded (b : Bytes) (sp : Bool) (fields : List Field) (epi : Bytes) (mr : Int)
+    (hok : ∀ f ∈ fields, FieldOK f) (hbud : (textBudget fields : Int) ≤ mr) :
+    iterItems (Spec.encodeBody b (fields.map Field.part) epi) sp
+      (Spec.expectedMarkups b (fields.map Field.part)) mr =
+      ⟨encodedItems (Spec.delim b).length (2 + b.length) fields, none⟩ := by
+  unfold iterItems Spec.expectedMarkups Spec.encodeBody
+  simp only [ne_eq, not_true_eq_false, ↓reduceIte, Int.lt_irrefl, gt_iff_lt]
+  have hl : 2 + b.length = (HYPHENx2 ++ b).length := by simp [HYPHENx2]; omega
+  rw [hl]
+  exact itemsLoop_encoded b sp fields (HYPHENx2 ++ b) (HYPHENx2 ++ epi) mr hok hbud
+
+/-- **Round trip.**  For every list of fields of the domain (names and file names free of `"` and
+of line breaks, file names non-empty, media types without parameters; any text values, any file
+bytes; any repetition of names, also across text fields and uploads), every boundary that can be
+named in the Content-Type header (as a token or as a quoted string) and that the parser accepts,
+every epilogue, every `max_memfile_size` that covers the header blocks and the text values, every
+`content_length`, and every fragmentation `chunks` in which the body reader delivered the encoded
+body (either framing): reading `POST` succeeds, and under every key `POST` shows exactly the fields
+of that name in submission order, `forms` the text fields, `files` the uploads — an upload with its
+name, raw file name, content type and the exact bytes; a name used once is stored bare, a repeated
+one as a list.  The markup of the encoded body is the hypothesis `MarkupExact` (C06). -/
+theorem form_roundtrip (boundary : Str) (quote : Bool) (fields : List Field) (epilogue : Bytes)
+    (chunks : List Bytes) (cl : Int) (maxMemfile : Nat) (emap : List (String × Nat)) (jl : JLoads)
+    (hb : LegalBoundary boundary) (hcr : CR ∉ utf8Encode boundary)
+    (hf : ∀ f ∈ fields, FieldOK f) (hbud : textBudget fields ≤ maxMemfile)
+    (hbody : chunks.flatten = encodeForm boundary fields epilogue)
+    (hmk : MarkupExact (utf8Encode boundary) (fields.map Field.part) chunks) :
+    ∃ post forms files : FDict,
+      postOf ⟨maxMemfile, emap⟩ jl ⟨some (contentTypeFor boundary quote), cl, .ok chunks⟩ =
+        ⟨.fields files, some (.fields forms), .ok (.fields post)⟩ ∧
+      let body := encodeForm boundary fields epilogue
+      let sp := spooled ⟨maxMemfile, emap⟩ body
+      ∀ k : Str,
+        Shows body sp (dictGet post k) (fields.filter (fun f => f.name = k)) ∧
+        Shows body sp (dictGet forms k) (fields.filter (fun f => f.name = k ∧ f.isFile = false)) ∧
+        Shows body sp (dictGet files k) (fields.filter (fun f => f.name = k ∧ f.isFile = true)) := by
+  -- the markup object
+  obtain ⟨s0, hs0⟩ : ∃ s0, St.init (utf8Encode boundary) = .ok s0 := by
+    unfold St.init Markuper.init
+    rw [if_neg hcr]
+    exact ⟨_, rfl⟩
+  obtain ⟨hmarkups, herr⟩ := hmk s0 hs0
+  have hbodyOf : bodyOf ⟨maxMemfile, emap⟩ ⟨some (contentTypeFor boundary quote), cl, .ok chunks⟩ =
+      .ok (chunks.flatten, some (feed s0 chunks)) := by
+    unfold bodyOf
+    simp only [Option.getD_some, boundaryOf_contentTypeFor boundary quote hb, hs0, Option.map_some]
+  have hitems := fun sp => iterItems_encoded (utf8Encode boundary) sp fields epilogue
+    (maxMemfile : Int) hf (by omega)
+  have henc : encodeForm boundary fields epilogue =
+      Spec.encodeBody (utf8Encode boundary) (fields.map Field.part) epilogue := rfl
+  refine ⟨(collect (encodedItems (Spec.delim (utf8Encode boundary)).length (2 + (utf8Encode boundary).length) fields)).post,
+    (collect (encodedItems (Spec.delim (utf8Encode boundary)).length (2 + (utf8Encode boundary).length) fields)).forms,
+    (collect (encodedItems (Spec.delim (utf8Encode boundary)).length (2 + (utf8Encode boundary).length) fields)).files,
+    ?_, ?_⟩
+  · unfold postOf
+    simp only [lowerCT_multipart, not_true_eq_false, ↓reduceIte, hbodyOf, herr, hmarkups]
+    rw [hbody, henc, hitems]
+  · intro body sp k
+    have hrb := encodedItems_readBack (utf8Encode boundary) sp fields (HYPHENx2 ++ utf8Encode boundary)
+      (HYPHENx2 ++ epilogue) hf
+    have hl : (HYPHENx2 ++ utf8Encode boundary).length = 2 + (utf8Encode boundary).length := by
+      simp [HYPHENx2]; omega
+    rw [hl] at hrb
+    have hX : HYPHENx2 ++ utf8Encode boundary ++
+        (Spec.encodeParts (utf8Encode boundary) (fields.map Field.part) ++ (HYPHENx2 ++ epilogue)) = body := rfl
+    rw [hX] at hrb
+    obtain ⟨hshape, hvals⟩ := collect_spec (encodedItems (Spec.delim (utf8Encode boundary)).length
+      (2 + (utf8Encode boundary).length) fields)
+    obtain ⟨v1, v2, v3⟩ := hvals k
+    refine ⟨⟨?_, hshape.1 k⟩, ⟨?_, hshape.2.1 k⟩, ⟨?_, hshape.2.2 k⟩⟩
+    · rw [v1, List.map_map]
+      exact forall₂_filter_map (ReadsBack body sp) (fun f => decide (f.name = k)) (fun it => decide (it.name = k))
+        (viewItem body sp ∘ itemFst) (fun f => some (specItem f))
+        (fun a b h => ⟨by rw [h.1], h.2.2⟩) _ _ hrb
+    · rw [v2, List.map_map]
+      exact forall₂_filter_map (ReadsBack body sp) (fun f => decide (f.name = k ∧ f.isFile = false))
+        (fun it => decide (it.name = k ∧ itemToFiles it = false))
+        (viewItem body sp ∘ itemFst) (fun f => some (specItem f))
+        (fun a b h => ⟨by rw [h.1, h.2.1], h.2.2⟩) _ _ hrb
+    · rw [v3, List.map_map]
+      exact forall₂_filter_map (ReadsBack body sp) (fun f => decide (f.name = k ∧ f.isFile = true))
+        (fun it => decide (it.name = k ∧ itemToFiles it = true))
+        (viewItem body sp ∘ itemFst) (fun f => some (specItem f))
+        (fun a b h => ⟨by rw [h.1, h.2.1], h.2.2⟩) _ _ hrb
 
 end Ombott.Forms
